@@ -10,6 +10,7 @@ A property module (props/cNN.py) provides:
 Exit codes: 0 held, 1 violation, 2 harness error / inconclusive.
 """
 import argparse
+import collections
 import hashlib
 import importlib
 import json
@@ -154,6 +155,8 @@ class Stats:
         self.first_fail_t = None
         self.budget_hit = False
         self.exhaustive_done = None
+        self.recent = collections.deque(maxlen=60)   # cases executed in this process, oldest first (for history-dependent failures)
+        self.first_fail_hist = None
 
     def note(self, case, res, want_samples=3):
         self.evals += 1
@@ -169,6 +172,11 @@ class Stats:
                         self.samples.append(json.loads(s))
 
     def fail(self, case, viol):
+        if self.first_fail_hist is None:
+            before = list(self.recent)
+            if before and before[-1] == canon(case):
+                before = before[:-1]
+            self.first_fail_hist = {"before": [json.loads(c) for c in before], "case": json.loads(canon(case))}
         size = len(canon(case))
         if self.best_fail is None or size <= self.best_fail[0]:
             self.best_fail = (size, json.loads(canon(case)), viol)
@@ -199,6 +207,7 @@ def run_shard(pid, tier, seed, shard, nshards, out_path, examples=None):
         with open(cur_path, "w") as fh:  # so that the parent knows the culprit if this process is killed by a crash
             fh.write(canon(case))
         res = exec_case(mod, case)
+        st.recent.append(canon(case))
         unknown, matched = split_known(mod, case, res["viol"], findings)
         for k in matched:
             st.known[k] = st.known.get(k, 0) + 1
@@ -268,7 +277,7 @@ def run_shard(pid, tier, seed, shard, nshards, out_path, examples=None):
     out = {"shard": shard, "evals": st.evals, "labels": st.labels, "nontrivial": sorted(st.nontrivial),
            "samples": st.samples, "known": st.known, "budget_hit": st.budget_hit, "error": err,
            "exhaustive_done": st.exhaustive_done, "wall_s": time.time() - t_start, "buckets": buckets,
-           "fail": None if st.best_fail is None else {"case": st.best_fail[1], "viol": st.best_fail[2]}}
+           "fail": None if st.best_fail is None else {"case": st.best_fail[1], "viol": st.best_fail[2], "history": st.first_fail_hist}}
     with open(out_path, "w") as fh:
         json.dump(out, fh, default=_json_default)
 
@@ -286,8 +295,26 @@ def write_replay(pid, case, viol):
 
 
 def read_replay(path):
+    """-> a case, or {"sequence": [case, ...]}: cases to execute in this order in ONE process; the last one is judged (failures that
+    depend on what the process did before: module-level caches and other hidden state)"""
     d = json.load(open(path))
+    if isinstance(d, dict) and "sequence" in d:
+        return {"sequence": d["sequence"]}
     return d["case"] if isinstance(d, dict) and "case" in d else d
+
+
+def last_case(case):
+    return case["sequence"][-1] if isinstance(case, dict) and "sequence" in case and len(case) == 1 else case
+
+
+def write_sequence_replay(pid, seq, viol):
+    d = os.path.join(VERIF, "replays", pid)
+    os.makedirs(d, exist_ok=True)
+    p = os.path.join(d, "seq-" + case_hash({"sequence": seq}) + ".json")
+    with open(p, "w") as fh:
+        json.dump({"property": pid, "sequence": seq, "violations": viol,
+                   "note": "the last case fails only after the earlier ones ran in the same process"}, fh, indent=1, default=_json_default)
+    return os.path.relpath(p, VERIF)
 
 
 def worker_env(mod):
@@ -349,7 +376,12 @@ def main(argv=None):
     if a._one:  # child: one case
         mod = load_module(pid)
         try:
-            res = exec_case(mod, read_replay(a._one))
+            rc = read_replay(a._one)
+            if isinstance(rc, dict) and list(rc) == ["sequence"]:
+                for c_ in rc["sequence"][:-1]:
+                    exec_case(mod, c_)
+                rc = rc["sequence"][-1]
+            res = exec_case(mod, rc)
             json.dump({"viol": res["viol"], "labels": res["labels"]}, open(a._out, "w"))
         except HarnessError as e:
             json.dump({"error": str(e)}, open(a._out, "w"))
@@ -374,7 +406,7 @@ def main(argv=None):
         except HarnessError as e:
             print("HARNESS-ERROR %s" % e)
             return 2
-        unknown, matched = split_known(mod, read_replay(a.replay), viol, findings)
+        unknown, matched = split_known(mod, last_case(read_replay(a.replay)), viol, findings)
         for k, d in viol:
             print("  %s: %s" % (k, d))
         if unknown:
@@ -495,10 +527,45 @@ def _search(a, pid, mod, findings, binfo, t0):
             # confirm outside hypothesis, in a fresh process
             viol, _ = run_in_child(pid, f["case"])
             unknown, _m = split_known(mod, f["case"], viol, findings)
-            if not unknown:
-                raise HarnessError("flaky-oracle: shrunk failure did not reproduce in a fresh process: %s / %s"
-                                   % (canon(f["case"])[:500], f["viol"]))
-            violations.append((f["case"], unknown, None))
+            if unknown:
+                violations.append((f["case"], unknown, None))
+            else:
+                # not reproducible on its own: does it depend on what the worker process did before (hidden global state)?
+                seq_hit = None
+                for fh in [x for x in fails if x.get("history")]:
+                    h = fh["history"]
+                    full = h["before"] + [h["case"]]
+
+                    def fails_as(seq):
+                        v, _l = run_in_child(pid, {"sequence": seq})
+                        u, _mm = split_known(mod, seq[-1], v, findings)
+                        return u
+                    u = fails_as(full)
+                    if not u:
+                        continue
+                    best = (full, u)
+                    found_small = False
+                    for b in reversed(h["before"][-25:]):          # a single earlier call is the usual culprit
+                        u2 = fails_as([b, h["case"]])
+                        if u2:
+                            best, found_small = ([b, h["case"]], u2), True
+                            break
+                    if not found_small:
+                        k = 2
+                        while k < len(full):                       # otherwise the shortest failing suffix among 2, 4, 8, ...
+                            u2 = fails_as(full[-k:])
+                            if u2:
+                                best = (full[-k:], u2)
+                                break
+                            k *= 2
+                    seq_hit = best
+                    break
+                if seq_hit is None:
+                    raise HarnessError("flaky-oracle: shrunk failure did not reproduce in a fresh process, alone or after the cases that "
+                                       "preceded it: %s / %s" % (canon(f["case"])[:500], f["viol"]))
+                seq, u = seq_hit
+                u = [(k_ + "/after-earlier-calls", d_ + "  [fails only after %d earlier case(s) ran in the same process]" % (len(seq) - 1)) for k_, d_ in u]
+                violations.append((seq[-1], u, write_sequence_replay(pid, seq, u)))
 
     # 4. evidence + verdict
     evals = sum(r["evals"] for r in results) + n_reg
